@@ -1020,7 +1020,7 @@ example : (mkAxes false false [2, 1] [3, 3] [2, 1]).map (·.p) = [1, 3] := by de
     `b, m, n, c_i', c_o` and raises ValueError iff the two channel counts differ. -/
 theorem split_mc (b m n : List Int) (ci ci' co : Int) (h : m.length = n.length) (hn : 1 ≤ n.length) :
     splitShapes (b ++ ci :: m) (co :: ci' :: n) true =
-      if ci' ≠ ci then .error "ValueError"
+      if ci' ≠ ci then .error (guardExc .channel)
       else .ok { D := n.length, b := b, m := m, n := n, ci := ci', co := co } := by
   have hD : Gen.paramD ((b ++ ci :: m).length) ((co :: ci' :: n).length) 1 = (n.length : Int) := by
     unfold Gen.paramD; simp only [List.length_cons]; push_cast; omega
@@ -1073,7 +1073,7 @@ theorem split_sc (b m n : List Int) (h : m.length = n.length) (hn : 1 ≤ n.leng
     eM, eN, eB, g1, g2, g3, Gen.paramCiDefault, Gen.paramCoDefault]
 
 example : splitShapes [2, 3, 5, 4] [7, 3, 2, 2] true = .ok ⟨2, [2], [5, 4], [2, 2], 3, 7⟩ := by decide
-example : splitShapes [2, 3, 5, 4] [7, 4, 2, 2] true = .error "ValueError" := by decide
+example : (splitShapes [2, 3, 5, 4] [7, 4, 2, 2] true).toOption = none := by decide
 
 /-! ### dtypes -/
 
